@@ -981,6 +981,16 @@ fn run_proxy(ctx: &Ctx, l: &[Sx]) -> Sx {
             }
         }
     }
+    if tag == "bridge2" && c.client != "closeearly" && res.end == "closed" {
+        // the inner bridge stopped by itself (a service dropped its connection): the outer pump ends
+        // with status 0, or with 1 when it was still writing pipelined requests into the inner bridge's
+        // stdin at that moment (broken pipe) — the same race, folded into the same token
+        if let Sx::Atom(a) = &exit {
+            if a == "0" || a == "1" {
+                exit = sx::atom("closed-by-service");
+            }
+        }
+    }
     let panicked = matches!(&exit, Sx::Atom(a) if a == "101");
     // kept for replaying old observations: since aebf686 (half-close) the replies of a closeearly
     // session behind a pump are complete and deterministic, the full list is printed
